@@ -228,7 +228,9 @@ var (
 // tSpecialTagEnd is the context transition function for raw text, RCDATA
 // script data, and stylesheet element states.
 func tSpecialTagEnd(c context, s []byte) (context, int) {
-	if specialElements[c.element.name] {
+	// The end tag is only looked for in the body of the element: inside its start tag
+	// "</script" is part of an attribute name or value for an HTML parser.
+	if c.state == stateSpecialElementBody && specialElements[c.element.name] {
 		if i := indexTagEnd(s, []byte(c.element.name)); i != -1 {
 			return context{}, i
 		}
